@@ -62,7 +62,10 @@ func newRowSpace(r *Row, thorough bool) *rowSpace {
 	in := r.Inst()
 	rs := &rowSpace{inst: in}
 	bud := budgetFor(r.Cost, thorough)
-	for _, b := range in.Bases {
+	for bi, b := range in.Bases {
+		if bi > 0 && !thorough && r.Cost > Cheap {
+			break // quick tier: rows that are not cheap use their first valid encoding only
+		}
 		rs.starts = append(rs.starts, rs.total)
 		sp := newSpace(b, bud, thorough)
 		rs.spaces = append(rs.spaces, sp)
@@ -216,7 +219,7 @@ func WorkerMain(t *testing.T, rows []*Row) {
 		t.Fatalf("worker: result file: %v", err)
 	}
 	defer out.Close()
-	debug.SetMaxStack(256 << 20)
+	debug.SetMaxStack(512 << 20) // half the default: an honest parser never needs it, a runaway recursion dies sooner
 	if lim, _ := strconv.ParseUint(os.Getenv("VERIF_C10_ASLIMIT"), 10, 64); lim > 0 {
 		_ = syscall.Setrlimit(syscall.RLIMIT_AS, &syscall.Rlimit{Cur: lim, Max: lim})
 	}
@@ -269,6 +272,8 @@ func runJob(sh *shm, w, ji int, row *Row, rs *rowSpace, lo, hi int, only string)
 		res.FullFlip = res.FullFlip && f
 		res.FullWin = res.FullWin && wn
 	}
+	atomic.StoreUint64(sh.slot(w, 4), 0)
+	atomic.StoreUint64(sh.slot(w, 5), 0)
 	viol := map[string]*ViolationRec{}
 	maxn := 0
 	for _, sp := range rs.spaces {
@@ -317,6 +322,7 @@ func runJob(sh *shm, w, ji int, row *Row, rs *rowSpace, lo, hi int, only string)
 		}
 		if trivial {
 			res.Trivial++
+			atomic.StoreUint64(sh.slot(w, 5), uint64(res.Trivial))
 			continue
 		}
 		if call == nil {
@@ -326,6 +332,7 @@ func runJob(sh *shm, w, ji int, row *Row, rs *rowSpace, lo, hi int, only string)
 			call = func() error { return in.Call(d) }
 		}
 		atomic.StoreUint64(sh.slot(w, 2), uint64(idx))
+		atomic.StoreUint64(sh.slot(w, 4), uint64(res.Evals+1)) // executed in this job incl. the running case
 		atomic.StoreUint64(sh.slot(w, 0), stCase)
 		atomic.AddUint64(sh.slot(w, 3), 1)
 		var cerr error
@@ -417,14 +424,73 @@ func fatalClass(stderr string, hung bool) string {
 		return s
 	case strings.Contains(stderr, "SIGSEGV") || strings.Contains(stderr, "unexpected signal"):
 		return "signal"
+	case strings.Contains(stderr, "panic: "):
+		return "unrecovered-panic"
 	}
 	return "died"
+}
+
+// sink is what the supervisor reports into: the engine's *verifmc.Run, or a recorder (self-test).
+type sink interface {
+	Rule(string)
+	Thorough() bool
+	Replaying() bool
+	ReplayCase() string
+	Distinct(parts ...interface{})
+	Outcome(string)
+	Violation(key, caseID, what string, replay interface{})
+	Eval(int)
+	Count(string, int)
+	Set(string, interface{})
+	Sample(interface{})
+	RequireCounter(string, int64)
+	Cap(string)
+	NotExhaustive(string)
+}
+
+// Recorder is a sink that keeps violations in memory (used by the kit self-test: the supervisor is
+// run on synthetic decoders with planted failures and must attribute each one correctly).
+type Recorder struct {
+	Viol       map[string]string // key -> case id
+	Counters   map[string]int
+	Evals      int
+	IsThorough bool
+}
+
+func (m *Recorder) Rule(string)                   {}
+func (m *Recorder) Thorough() bool                { return m.IsThorough }
+func (m *Recorder) Replaying() bool               { return false }
+func (m *Recorder) ReplayCase() string            { return "" }
+func (m *Recorder) Distinct(parts ...interface{}) {}
+func (m *Recorder) Outcome(string)                {}
+func (m *Recorder) Eval(n int)                    { m.Evals += n }
+func (m *Recorder) Count(k string, n int)         { m.Counters[k] += n }
+func (m *Recorder) Set(string, interface{})       {}
+func (m *Recorder) Sample(interface{})            {}
+func (m *Recorder) RequireCounter(string, int64)  {}
+func (m *Recorder) Cap(string)                    {}
+func (m *Recorder) NotExhaustive(string)          {}
+func (m *Recorder) Violation(key, caseID, what string, replay interface{}) {
+	if _, ok := m.Viol[key]; !ok {
+		m.Viol[key] = caseID
+	}
 }
 
 // RunUnit is the body of a TestVerifC10_<unit> function.
 func RunUnit(t *testing.T, unit, workerTest string, rows []*Row) {
 	r := verifmc.Start(t, "C10", unit)
 	defer r.Finish()
+	supervise(t, r, unit, workerTest, rows, 0)
+}
+
+// SelfTest runs the supervisor on rows with planted failures and returns what it attributed.
+func SelfTest(t *testing.T, unit, workerTest string, rows []*Row, watchdog time.Duration) *Recorder {
+	m := &Recorder{Viol: map[string]string{}, Counters: map[string]int{}}
+	supervise(t, m, unit, workerTest, rows, watchdog)
+	return m
+}
+
+func supervise(t *testing.T, r sink, unit, workerTest string, rows []*Row, watchdogOverride time.Duration) {
 	r.Rule("case = (registry row, valid encoding, alteration): empty, 1 byte, every truncation, +1/+16/self appended, 00/FF fills at len-16..len+16, " +
 		"every single-bit flip, every 8/16/32-bit window <- {0,1,7F..,80..,FF..,rem-1,rem,rem+1} in both byte orders, other-scheme encodings, wrong dynamic types; " +
 		"non-trivial = the altered input differs from the valid encoding and from every earlier alteration of the same encoding (exact, analytic de-duplication)")
@@ -450,7 +516,10 @@ func RunUnit(t *testing.T, unit, workerTest string, rows []*Row) {
 	if err != nil {
 		t.Fatalf("shm: %v", err)
 	}
-	nw := runtime.GOMAXPROCS(0)
+	nw := runtime.GOMAXPROCS(0) / 2 // several units run at the same time
+	if nw < 2 {
+		nw = 2
+	}
 	if nw > len(jobs) {
 		nw = len(jobs)
 	}
@@ -460,6 +529,9 @@ func RunUnit(t *testing.T, unit, workerTest string, rows []*Row) {
 	watchdog := 60 * time.Second // >= 100x the slowest honest case of any row (checked below)
 	if s, _ := strconv.Atoi(os.Getenv("VERIF_C10_WATCHDOG_S")); s > 0 {
 		watchdog = time.Duration(s) * time.Second
+	}
+	if watchdogOverride > 0 {
+		watchdog = watchdogOverride
 	}
 	resPath := func(w int) string { return filepath.Join(dir, fmt.Sprintf("res.%d.jsonl", w)) }
 	start := func(w int, resume string) *workerProc {
@@ -496,9 +568,10 @@ func RunUnit(t *testing.T, unit, workerTest string, rows []*Row) {
 		procs[w] = start(w, "")
 	}
 	type fatalRec struct {
-		job, idx int
-		class    string
-		stderr   string
+		job, idx       int
+		class          string
+		stderr         string
+		evals, trivial int64 // progress of the lost job up to and including the fatal case
 	}
 	var fatals []fatalRec
 	hangTries := map[string]int{}
@@ -550,7 +623,8 @@ func RunUnit(t *testing.T, unit, workerTest string, rows []*Row) {
 					continue
 				}
 			}
-			fatals = append(fatals, fatalRec{ji, idx, fatalClass(string(eb), hung), tail(string(eb), 1500)})
+			fatals = append(fatals, fatalRec{ji, idx, fatalClass(string(eb), hung), tail(string(eb), 1500),
+				int64(atomic.LoadUint64(sh.slot(w, 4))), int64(atomic.LoadUint64(sh.slot(w, 5)))})
 			if len(fatals) > 400 {
 				t.Fatalf("more than 400 fatal worker deaths; giving up (last: %s)", tail(string(eb), 2000))
 			}
@@ -651,8 +725,14 @@ func RunUnit(t *testing.T, unit, workerTest string, rows []*Row) {
 			a = &rowAgg{name: row.Name}
 			agg[row.Name] = a
 		}
-		a.evals++
+		// the results of the job the worker died in are lost; its progress counters are not
+		a.evals += fr.evals
+		a.distinct += fr.evals
+		a.trivial += fr.trivial
 		a.pan++
+		for i := int64(0); i < fr.evals; i++ {
+			r.Distinct(row.Name, "lost", fr.job, fr.idx, i)
+		}
 		r.Outcome("fatal:" + fr.class)
 	}
 	keys := make([]string, 0, len(best))
